@@ -32,7 +32,7 @@ type RunCfg struct {
 	Auto      bool              `json:"auto,omitempty"` // real scheduling / quota / inspect loops instead of manual cycles
 	Extra     map[string]string `json:"extra,omitempty"`
 	Race      bool              `json:"race,omitempty"`
-	Engine    string            `json:"engine,omitempty"`  // "" = scheduler (engine S), "events" = pkg/events only (engine E)
+	Engine    string            `json:"engine,omitempty"`     // "" = scheduler (engine S), "events" = pkg/events only (engine E)
 	Freeze    bool              `json:"freeze,omitempty"`     // record crash points (frozen shim knowledge) for C12
 	Restore   *FrozenState      `json:"restore,omitempty"`    // start as the core after a crash: replay this shim knowledge first
 	ExpectSig string            `json:"expect_sig,omitempty"` // replay: the violation this file reproduces
@@ -327,7 +327,7 @@ func (s *Sim) exec(op Op) {
 			} else if ex := sh.Allocs[a.Key]; ex == nil || ex.Status == stGone {
 				m := &MAlloc{Key: a.Key, App: a.App, Res: a.Res.Clone(), Priority: a.Priority, Placeholder: a.Placeholder, TaskGroup: a.TaskGroup,
 					RequiredNode: a.RequiredNode, PreemptSelf: a.PreemptSelf, PreemptOther: a.PreemptOther, Originator: a.Originator,
-					Status: stPending, SubmitStep: s.step}
+					Status: stPending, SubmitStep: s.step, SubmitMs: sh.nowMs()}
 				if a.Node != "" {
 					m.Status = stBound
 					m.Node = a.Node
